@@ -414,7 +414,8 @@ def run_httpreply(cell):
     code = api.sstr('c0', 1, 0x32, 0x35) + api.sstr('c12', 2, 0x30, 0x39)
     api.assume(code[0:1] != '3')
     msg = ['2.0.0 fine', 'try again later', '5.1.1 no such user; really',
-           'weird = "quoted" text'][api.choice('msg', 4)]
+           'weird = "quoted" text', 'line one\r\nline two'][
+        api.choice('msg', 5)]
     # replies that come from a relay behind the edge (ProxyQueue) carry the
     # command they answer, as bytes
     cmd = [None, 'DATA', b'RCPT', b'[SEND_DATA]'][api.choice('command', 4)]
